@@ -50,7 +50,8 @@ impl MOp {
 }
 
 pub fn su(u: Uuid) -> String {
-    u.as_simple().to_string()[..6].to_string()
+    let s = u.as_simple().to_string();
+    if s.starts_with("000000") { s[26..].to_string() } else { s[..6].to_string() }
 }
 
 pub fn trunc(s: &str) -> String {
